@@ -415,9 +415,11 @@ func Dump(e *Expr) string {
 		return
 	}
 
-	var helper func(int16) (string, bool)
+	var helper func(int16, int) (string, bool)
 
-	helper = func(idx int16) (string, bool) {
+	// depth is the nesting level of the node, children are indented
+	// when written so that line breaks inside string literals stay intact
+	helper = func(idx int16, depth int) (string, bool) {
 		n := e.nodes[idx]
 		if n.childCnt == 0 {
 			return dumpLeafNode(n)
@@ -429,15 +431,13 @@ func Dump(e *Expr) string {
 		childIdxes := getChildIdxes(idx)
 
 		for _, cIdx := range childIdxes {
-			cc, isLeaf := helper(cIdx)
+			cc, isLeaf := helper(cIdx, depth+1)
 			if isLeaf {
 				sb.WriteString(fmt.Sprintf(" %s", cc))
 				continue
 			}
 
-			for _, cs := range strings.Split(cc, "\n") {
-				sb.WriteString(fmt.Sprintf("\n  %s", cs))
-			}
+			sb.WriteString(fmt.Sprintf("\n%s%s", strings.Repeat("  ", depth+1), cc))
 		}
 		sb.WriteString(")")
 		return sb.String(), false
@@ -450,7 +450,7 @@ func Dump(e *Expr) string {
 		}
 	}
 
-	res, _ := helper(rootIdx)
+	res, _ := helper(rootIdx, 0)
 	return res
 }
 
@@ -467,7 +467,8 @@ func dumpLeafNode(node *node) (string, bool) {
 	var res string
 	switch v := node.value.(type) {
 	case string:
-		res = strconv.Quote(v)
+		// the lexer reads string literals verbatim, it has no escape sequences
+		res = `"` + v + `"`
 	case []string:
 		var sb strings.Builder
 		sb.WriteRune('(')
@@ -475,7 +476,7 @@ func dumpLeafNode(node *node) (string, bool) {
 			if idx != 0 {
 				sb.WriteRune(' ')
 			}
-			sb.WriteString(strconv.Quote(s))
+			sb.WriteString(`"` + s + `"`)
 		}
 		sb.WriteRune(')')
 		res = sb.String()
